@@ -591,3 +591,97 @@ Proof.
     destruct (decode_options f (num + d) (bfrom raw2 l)) as [[os pl]|e3] eqn:E3; cbn [bind]; [discriminate|].
     intros H Hne. inv H. eapply IH; eassumption.
 Qed.
+
+(* ================================================================== outer shape; option compression *)
+
+(* the outer message: fixed codes, and no option besides Uri-Host, Observe and OSCORE *)
+Theorem outer_shape E c m r kc c' r' pm rid' :
+  protect E c m r kc = (c', r', Ok (pm, rid')) ->
+  Forall (fun o => fst o = OPT_URI_HOST \/ fst o = OPT_OBSERVE \/ fst o = OPT_OSCORE) (opts pm) /\
+  (forall o, In o (opts pm) -> fst o = OPT_URI_HOST -> is_request (code m) = true /\ get_opt OPT_URI_HOST (opts m) = Some (snd o)) /\
+  (if is_request (code m) then code pm = CODE_POST \/ code pm = CODE_FETCH
+   else exists r0, r = Some r0 /\ code pm = snd (code_style r0)).
+Proof.
+  intros P. apply protect_inv in P as (om & pt & ns & n & pv & up & _ & S & _ & _ & F).
+  apply split_message_inv in S as (oc & C & _ & ->).
+  apply protect_finish_inv in F as (od & Hc & Ho & _ & _). cbn [code opts] in *. rewrite Hc, Ho. clear Hc Ho.
+  split; [|split].
+  - unfold outer_opts_of, add_oscore.
+    destruct (is_request (code m)); destruct (get_opt OPT_URI_HOST (opts m)); destruct (is_response (code m)); destruct (observe_value (opts m));
+      cbn; repeat (apply Forall_cons || apply Forall_nil); cbn; auto.
+  - intros o Hin Hf. unfold outer_opts_of, add_oscore in Hin.
+    destruct (is_request (code m)); destruct (get_opt OPT_URI_HOST (opts m)); destruct (is_response (code m)); destruct (observe_value (opts m));
+      cbn in Hin; repeat (destruct Hin as [Hin|Hin]; [subst o; cbn in Hf; try discriminate; auto|]); try contradiction.
+  - unfold outer_code_of in C. destruct (is_request (code m)).
+    + inv C. destruct (get_opt OPT_OBSERVE (opts m)); auto.
+    + destruct r as [r0|]; [|discriminate]. inv C. eauto.
+Qed.
+
+(* ------------------------------------------------------------------ _compress / _uncompress round trip *)
+Definition unprot_ok (u : unprot) : Prop :=
+  match u_piv u with Some p => 1 <= blen p <= PIVSZ_MAX | None => True end /\
+  match u_kid_context u with Some kc => blen kc <= KID_CONTEXT_MAX | None => True end.
+Definition flags (n : Z) (k h g : bool) : Z :=
+  let f1 := if k then Z.lor n COMPRESSION_BIT_K else n in
+  let f2 := if h then Z.lor f1 COMPRESSION_BIT_H else f1 in
+  if g then Z.lor f2 COMPRESSION_BIT_GROUP else f2.
+Lemma flags_decode n (k h g : bool) : 0 <= n <= 5 ->
+  Z.land (flags n k h g) COMPRESSION_BITS_RESERVED = 0 /\ Z.land (flags n k h g) COMPRESSION_BITS_N = n /\
+  (Z.land (flags n k h g) COMPRESSION_BIT_H =? 0) = negb h /\ (Z.land (flags n k h g) COMPRESSION_BIT_K =? 0) = negb k /\
+  (Z.land (flags n k h g) COMPRESSION_BIT_GROUP =? 0) = negb g /\
+  (flags n k h g =? 0) = (n =? 0) && negb k && negb h && negb g.
+Proof.
+  intros Hn. assert (H : n = 0 \/ n = 1 \/ n = 2 \/ n = 3 \/ n = 4 \/ n = 5) by lia.
+  destruct H as [->|[->|[->|[->|[->| ->]]]]]; destruct k, h, g; cbv; repeat split; reflexivity.
+Qed.
+
+(* uncompress inverts compress on every header bag protect can produce (Partial IV of 1..5 bytes, kid context up to 255 bytes) *)
+Theorem compress_uncompress u od : unprot_ok u -> compress u = Ok od -> uncompress od = Ok u.
+Proof.
+  intros [Hp Hc]. unfold compress.
+  set (piv := match u_piv u with Some p => p | None => [] end).
+  assert (Hpl : 0 <= blen piv <= 5).
+  { subst piv. destruct (u_piv u); unfold PIVSZ_MAX in *; [lia|cbn; lia]. }
+  replace (blen piv >? COMPRESSION_BITS_N) with false by (unfold COMPRESSION_BITS_N; lia).
+  destruct u as [upiv ukid ukc ug]. cbn [u_piv u_kid u_kid_context u_group] in *.
+  set (k := match ukid with Some _ => true | None => false end).
+  set (h := match ukc with Some _ => true | None => false end).
+  set (kid_data := match ukid with Some x => x | None => [] end).
+  set (skc := match ukc with Some kc => blen kc :: kc | None => [] end).
+  assert (Hcomp : forall od0,
+     (let '(firstbyte, kid_data0) := match ukid with Some k0 => (Z.lor (blen piv) COMPRESSION_BIT_K, k0) | None => (blen piv, []) end in
+      r <- match ukc with
+           | Some kc => if blen kc >? KID_CONTEXT_MAX then Raise ValueError else Ok (Z.lor firstbyte COMPRESSION_BIT_H, blen kc :: kc)
+           | None => Ok (firstbyte, []) end ;;
+      let '(firstbyte0, s_kid_context) := r in
+      let firstbyte1 := if ug then Z.lor firstbyte0 COMPRESSION_BIT_GROUP else firstbyte0 in
+      Ok (if firstbyte1 =? 0 then [] else firstbyte1 :: piv ++ s_kid_context ++ kid_data0)) = Ok od0 ->
+     od0 = if flags (blen piv) k h ug =? 0 then [] else flags (blen piv) k h ug :: piv ++ skc ++ kid_data).
+  { intros od0. subst k h kid_data skc. unfold flags.
+    destruct ukid, ukc; cbn [bind]; try (destruct (blen l0 >? KID_CONTEXT_MAX); [discriminate|]); try (destruct (blen l >? KID_CONTEXT_MAX); [discriminate|]);
+      cbn [bind]; intros H; inv H; reflexivity. }
+  intros H. apply Hcomp in H. clear Hcomp. subst od.
+  destruct (flags_decode (blen piv) k h ug Hpl) as (F1 & F2 & F3 & F4 & F5 & F6).
+  destruct (flags (blen piv) k h ug =? 0) eqn:Ez.
+  - (* nothing present: the empty option *)
+    symmetry in F6. apply andb_prop in F6 as [F6 Eg]. apply andb_prop in F6 as [F6 Eh]. apply andb_prop in F6 as [En Ek].
+    subst k h. destruct ukid; [discriminate|]. destruct ukc; [discriminate|]. destruct ug; [discriminate|].
+    destruct upiv as [p|]; [subst piv; cbn in En; unfold PIVSZ_MAX in *; lia|]. reflexivity.
+  - unfold uncompress. rewrite F1, F2, F3, F4, F5. cbn [Z.eqb negb].
+    replace (blen piv >? PIVSZ_MAX) with false by (unfold PIVSZ_MAX; lia).
+    destruct upiv as [p|].
+    + subst piv. replace (negb (blen p =? 0)) with true by lia.
+      replace (blen (p ++ skc ++ kid_data) <? blen p) with false by (rewrite blen_app; pose proof (blen_nonneg (skc ++ kid_data)); lia).
+      cbn [bind]. rewrite bto_app, bfrom_app.
+      subst h skc k kid_data. destruct ukc as [kc|]; cbn [negb].
+      * cbn [app]. replace (blen (blen kc :: kc ++ match ukid with Some x => x | None => [] end) - 1 <? blen kc) with false
+          by (rewrite blen_cons, blen_app; pose proof (blen_nonneg match ukid with Some x => x | None => [] end); lia).
+        cbn [bind]. rewrite bto_app, bfrom_app. destruct ukid, ug; reflexivity.
+      * cbn [bind app]. destruct ukid, ug; reflexivity.
+    + subst piv. cbn [blen length Z.of_nat Z.eqb negb app bind].
+      subst h skc k kid_data. destruct ukc as [kc|]; cbn [negb].
+      * cbn [app]. replace (blen (blen kc :: kc ++ match ukid with Some x => x | None => [] end) - 1 <? blen kc) with false
+          by (rewrite blen_cons, blen_app; pose proof (blen_nonneg match ukid with Some x => x | None => [] end); lia).
+        cbn [bind]. rewrite bto_app, bfrom_app. destruct ukid, ug; reflexivity.
+      * cbn [bind app]. destruct ukid, ug; reflexivity.
+Qed.
